@@ -187,7 +187,33 @@ func judgeTree(c TreeCase) (vs []evid.Violation) {
 	if back2, cerr2 := fromLib(e); cerr2 != nil || !rlpref.Equal(back2, it) {
 		vs = append(vs, evid.V("decode-result-independent-of-input-buffer", "the decoded element changed when the caller reused the input buffer"))
 	}
+	// results are the caller's to modify: scribble over every string of the decoded element and over
+	// the bytes Encode() returned, then decode the same input once more - same tree as the first time
+	reenc := e.Encode()
+	scribbleElement(e)
+	for i := range reenc {
+		reenc[i] ^= 0xff
+	}
+	e3, pos3, err3 := rlp.Decode(inSnapshot)
+	if err3 != nil || pos3 != len(got) {
+		vs = append(vs, evid.V("decode-independent-of-earlier-results", "after the caller modified an earlier result in place, decoding the same input gives pos=%d err=%v", pos3, err3))
+	} else if back3, cerr3 := fromLib(e3); cerr3 != nil || !rlpref.Equal(back3, it) {
+		vs = append(vs, evid.V("decode-independent-of-earlier-results", "after the caller modified an earlier result in place, decoding the same input gives a different tree: re-encoded %s want %s", short(rlpref.Encode(back3)), short(want)))
+	}
 	return vs
+}
+
+func scribbleElement(e rlp.Element) {
+	switch v := e.(type) {
+	case rlp.Data:
+		for i := range v {
+			v[i] ^= 0xff
+		}
+	case rlp.List:
+		for _, c := range v {
+			scribbleElement(c)
+		}
+	}
 }
 
 func short(b []byte) string {
